@@ -48,6 +48,70 @@ def known_match(known, pid, sig):
     return None
 
 
+class RunTimeout(BaseException):
+    pass
+
+
+RUN_TIMEOUT_S = float(os.environ.get('VERIF_RUN_TIMEOUT_S', 25))
+
+
+def guarded_run(mod, plan, **kw):
+    """mod.run under a real-time alarm.  A simulated run needs milliseconds;
+    one that is still computing after RUN_TIMEOUT_S seconds of real time has
+    an actor that never reaches a yield point again (e.g. unbounded
+    recursion in the code under test).  That is reported as a violation of
+    the property being checked (every property presupposes that the code
+    terminates), and the process is marked poisoned: the busy thread cannot
+    be stopped, so the caller must not start another run in this process."""
+    import signal
+    import threading
+
+    def on_alarm(signum, frame):
+        raise RunTimeout()
+    use_alarm = threading.current_thread() is threading.main_thread()
+    if use_alarm:
+        old = signal.signal(signal.SIGALRM, on_alarm)
+        # (repeats: the code under test has bare "except:" clauses that can
+        # swallow one delivery when the busy actor is the kernel thread)
+        signal.setitimer(signal.ITIMER_REAL, RUN_TIMEOUT_S, 0.05)
+    try:
+        return mod.run(plan, **kw)
+    except RunTimeout:
+        busy = []
+        for tid, fr in sys._current_frames().items():
+            if tid == threading.get_ident():
+                continue
+            st = traceback.extract_stack(fr)
+            code = [f for f in st if '/engineio/' in f.filename]
+            if code and '/engineio/' in st[-1].filename:
+                busy.append(' <- '.join('%s:%d %s' % (
+                    os.path.basename(f.filename), f.lineno, f.name)
+                    for f in reversed(code[-6:])))
+        if not busy:
+            st = traceback.extract_stack(sys._getframe())
+            code = [f for f in st if '/engineio/' in f.filename]
+            if code:
+                busy.append(' <- '.join('%s:%d %s' % (
+                    os.path.basename(f.filename), f.lineno, f.name)
+                    for f in reversed(code[-6:])))
+        where = busy[0] if busy else 'unknown'
+        fn = where.split(' ')[0].split(':')[0] if busy else 'unknown'
+        return {'violations': [{
+            'clause': 'terminates',
+            'sig': 'run-does-not-terminate|%s' % fn,
+            'text': 'the simulated run was still computing after %.0f s of '
+                    'real time (no actor reached a yield point): %s' % (
+                        RUN_TIMEOUT_S, where)}],
+            'probes': {}, 'faults': {}, 'sim_s': 0.0, 'digest': 'timeout',
+            'sched_digest': 'timeout', 'states': [], 'nontrivial': True,
+            'sched': kw.get('sched_values') or [], 'summary': {},
+            'leaked': 1, 'extra': {}, 'poisoned': True}
+    finally:
+        if use_alarm:
+            signal.setitimer(signal.ITIMER_REAL, 0)
+            signal.signal(signal.SIGALRM, old)
+
+
 def run_one(mod, tier, verif_seed, i):
     """One simulated run; returns a JSON-able summary (never raises)."""
     run_seed = derive_seed(verif_seed, mod.ID, tier, i)
@@ -55,7 +119,7 @@ def run_one(mod, tier, verif_seed, i):
     try:
         rng = random.Random(run_seed)
         plan = mod.gen(rng, tier, i)
-        out = mod.run(plan, sched_seed=run_seed)
+        out = guarded_run(mod, plan, sched_seed=run_seed)
         out['plan'] = plan
     except Exception:
         return {'i': i, 'run_seed': run_seed, 'harness': traceback.format_exc(),
@@ -70,14 +134,20 @@ def _worker(args):
     pid, tier, verif_seed, indices, deadline, per_run_timeout = args
     mod = load_prop(pid)
     agg = new_agg()
+    poisoned = False
     for i in indices:
-        if time.time() > deadline:
-            agg['skipped'] += 1
+        if time.time() > deadline or poisoned:
+            if poisoned:
+                agg['unfinished'].append(i)
+            else:
+                agg['skipped'] += 1
             continue
         faulthandler.dump_traceback_later(per_run_timeout, exit=True)
         out = run_one(mod, tier, verif_seed, i)
         faulthandler.cancel_dump_traceback_later()
         fold(agg, out)
+        if out.get('poisoned'):
+            poisoned = True     # a thread of this process spins forever
     agg['states'] = sorted(agg['states'])[:20000]
     agg['sched_digests'] = sorted(agg['sched_digests'])
     return agg
@@ -87,7 +157,8 @@ def new_agg():
     return {'runs': 0, 'skipped': 0, 'sim_s': 0.0, 'probes': {}, 'faults': {},
             'states': set(), 'sched_digests': set(), 'nontrivial': 0,
             'violating': [], 'harness': [], 'samples': [], 'wall': 0.0,
-            'digests': {}, 'leaked': 0, 'extra': {}}
+            'digests': {}, 'leaked': 0, 'extra': {}, 'unfinished': [],
+            'timeouts': 0}
 
 
 def fold(agg, out):
@@ -120,6 +191,8 @@ def fold(agg, out):
                                'plan': out.get('plan'),
                                'summary': out.get('summary'),
                                'violations': len(out.get('violations', []))})
+    if out.get('poisoned'):
+        agg['timeouts'] += 1
     if out.get('violations'):
         agg['violating'].append({'i': out['i'], 'run_seed': out['run_seed'],
                                  'plan': out['plan'], 'sched': out.get('sched'),
@@ -136,6 +209,8 @@ def merge(aggs):
         tot['wall'] += a['wall']
         tot['nontrivial'] += a['nontrivial']
         tot['leaked'] += a['leaked']
+        tot['unfinished'] += a.get('unfinished', [])
+        tot['timeouts'] += a.get('timeouts', 0)
         for k, v in a['probes'].items():
             tot['probes'][k] = tot['probes'].get(k, 0) + v
         for k, v in a['faults'].items():
@@ -158,7 +233,7 @@ def merge(aggs):
 # ---------------------------------------------------------------------------
 
 def replay_case(mod, plan, sched):
-    return mod.run(plan, sched_values=sched)
+    return guarded_run(mod, plan, sched_values=sched)
 
 
 def _sig_set(out):
@@ -259,7 +334,7 @@ def replay_file(path, quiet=False):
     with open(path) as f:
         doc = json.load(f)
     mod = load_prop(doc['property'])
-    out = mod.run(doc['plan'], sched_values=doc['schedule'])
+    out = guarded_run(mod, doc['plan'], sched_values=doc['schedule'])
     sigs = _sig_set(out)
     ok = (doc['clause'], doc['signature']) in sigs
     same_digest = out.get('digest') == doc.get('log_digest')
@@ -314,22 +389,33 @@ def check(pid, tier='quick', verif_seed=0, workers=None, n_runs=None,
     workers = workers or int(os.environ.get('VERIF_WORKERS',
                                             min(16, os.cpu_count() or 4)))
     deadline = t0 + budget_s
-    chunks = [list(range(w, n, workers)) for w in range(workers)]
-    args = [(pid, tier, verif_seed, c, deadline, 120) for c in chunks if c]
+    todo = list(range(n))
     ctx = multiprocessing.get_context('fork')
     aggs = []
     harness_msgs = []
-    try:
-        with cf.ProcessPoolExecutor(max_workers=workers,
-                                    mp_context=ctx) as ex:
-            futs = [ex.submit(_worker, a) for a in args]
-            for f in futs:
-                try:
-                    aggs.append(f.result(timeout=budget_s + 300))
-                except Exception as e:  # BrokenProcessPool, timeout
-                    harness_msgs.append('worker failed: %r' % (e,))
-    except Exception as e:
-        harness_msgs.append('pool failed: %r' % (e,))
+    rounds = 0
+    while todo and rounds < 4:
+        rounds += 1
+        chunks = [todo[w::workers] for w in range(workers)]
+        args = [(pid, tier, verif_seed, c, deadline, RUN_TIMEOUT_S * 4)
+                for c in chunks if c]
+        todo = []
+        try:
+            with cf.ProcessPoolExecutor(max_workers=workers,
+                                        mp_context=ctx) as ex:
+                futs = [ex.submit(_worker, a) for a in args]
+                for f in futs:
+                    try:
+                        a = f.result(timeout=budget_s + 300)
+                        aggs.append(a)
+                        # runs a poisoned worker could not start
+                        todo += a.get('unfinished', [])
+                    except Exception as e:  # BrokenProcessPool, timeout
+                        harness_msgs.append('worker failed: %r' % (e,))
+        except Exception as e:
+            harness_msgs.append('pool failed: %r' % (e,))
+        if len([a for a in aggs if a.get('timeouts')]) >= 8:
+            break       # the tree hangs everywhere: enough evidence
     tot = merge(aggs)
     status = EXIT_OK
     lines = []
@@ -337,7 +423,7 @@ def check(pid, tier='quick', verif_seed=0, workers=None, n_runs=None,
     # determinism: same seeds again in-process and in a fresh interpreter
     det = {'seeds': 0, 'ok': True, 'fresh_ok': None}
     idx = [i for i in range(min(det_sample, n))]
-    if idx and not harness_msgs:
+    if idx and not harness_msgs and not tot['timeouts']:
         again = {}
         for i in idx:
             out = run_one(mod, tier, verif_seed, i)
@@ -421,6 +507,20 @@ def check(pid, tier='quick', verif_seed=0, workers=None, n_runs=None,
     for (clause, sig), (viol, v) in sorted(new.items())[:max_rep]:
         plan, sched = v['plan'], v['sched']
         minimised = False
+        if clause == 'terminates':
+            out = {'violations': [viol], 'digest': 'timeout'}
+            path = write_replay(pid, v, plan, sched, out, False)
+            ok, txt = verify_replay_fresh(path)
+            if not ok:
+                harness_msgs.append('replay %s (non-termination) did not '
+                                    'reproduce in a fresh interpreter:\n%s'
+                                    % (path, txt[-400:]))
+                continue
+            status = EXIT_VIOLATION
+            lines.append('VIOLATION property=%s replay=%s' % (pid, path))
+            lines.append('  clause=%s sig=%s' % (clause, sig))
+            lines.append('  %s' % viol['text'][:400])
+            continue
         try:
             mplan, msched, tries = minimise(
                 mod, plan, sched, (clause, sig),
